@@ -8,7 +8,12 @@ import (
 // case-insensitive order ('B' < 'a'), from "concatenated" order ('!' < '/' <
 // '<' < 'a'), from UTF-16 order ('～' U+FF5E vs '😀' U+1F600), and contains the
 // separator characters of the construction ('<', '/').
-var alphabet = []string{"a", "b", "B", "0", "<", ">", "/", "!", "~", " ", "&", "\"", "'", "é", "Ψ", "日", "～", "😀", "\n", "_"}
+var alphabet = []string{"a", "b", "B", "0", "<", ">", "/", "!", "~", " ", "&", "\"", "'", "é", "Ψ", "日", "～", "😀", "\n", "_",
+	// text that a Unicode normalisation, case folding or width folding would
+	// change (the construction takes the octets as they are): decomposed é,
+	// ANGSTROM SIGN, OHM SIGN, the fi ligature, fullwidth A, dotted capital I,
+	// final sigma
+	"e\u0301", "\u212b", "\u2126", "\ufb01", "\uff21", "\u0130", "\u03c2"}
 
 func genTok(lo, hi int) *rapid.Generator[string] {
 	return rapid.Custom(func(t *rapid.T) string {
@@ -32,7 +37,7 @@ var (
 	catPool  = []string{"client", "server", "conference", "gateway", "a", "A", "a/", "a!", "ab", "Ψ"}
 	typePool = []string{"pc", "phone", "bot", "im", "text", "web", "p", "p/", "P", ""}
 	langPool = []string{"", "", "en", "el", "de", "en-US", "EN", "e"}
-	namePool = []string{"", "Psi 0.11", "Ψ 0.11", "Exodus 0.9.1", "a<b", "x/y", "100%", "%s %d", "a%20b"}
+	namePool = []string{"", "Psi 0.11", "Ψ 0.11", "Exodus 0.9.1", "a<b", "x/y", "100%", "%s %d", "a%20b", "Cafe\u0301", "\u212bngstro\u0308m", "o\ufb03ce"}
 	featPool = []string{
 		"http://jabber.org/protocol/caps", "http://jabber.org/protocol/disco#info",
 		"http://jabber.org/protocol/disco#items", "http://jabber.org/protocol/muc",
